@@ -8,8 +8,8 @@
      (4) if every call succeeded the sink holds a complete stream that decodes to everything
          written (decoding is done by the harness with brotli_decompressor; here: its verdict) -
          and "everything" is the whole input: a reader / copy session may only end successfully
-         after the wrapped reader itself signalled end of input (answered Ok(0)); an adapter that
-         stops pulling earlier delivers a valid stream of a mere prefix.
+         after the wrapped reader itself signalled end of input (answered Ok(0)) or has nothing
+         left; an adapter that stops pulling earlier delivers a valid stream of a mere prefix.
    Used by the check on the answers of the IMPLEMENTATION (search), independently of the model. *)
 From Coq Require Import NArith List Bool Arith.
 Import ListNotations.
@@ -30,7 +30,7 @@ Record obs := {
   o_results : list ores;
   o_faults : list (fault * nat);
   o_all_ok : bool;
-  o_input_exhausted : bool;           (* the wrapped reader answered Ok(0) (true for the writer) *)
+  o_input_exhausted : bool;           (* the wrapped reader answered Ok(0) or has no byte left (true for the writer) *)
   o_decodes : option bool;            (* Some b only when a complete stream is expected *)
   o_same_as_unscripted : option bool  (* Some b only when the two sessions are comparable *)
 }.
